@@ -10,6 +10,9 @@
 //          setpdg <sx>*d <n> (<gx>*d)*n <thr>   new ProblemDefinition with a GoalStates goal of n states
 //          addstart <x>*d                 pdef->addStartState (the one change of a pdef a resumed solve accounts for)
 //          solve <k>                      solve(ptc) with ptc false for the first k evaluations
+//          solvei <k>                     the same, decided by a real IterationTerminationCondition(k)
+//          solvet <k>                     ptc's function never fires; PlannerTerminationCondition::terminate() at evaluation k+1
+//          setparam <name> <value>        planner->params().setParam (a parameter changed between calls)
 //          clear | clearQuery | getpd | clearsol
 // (doubles are u64 bit patterns.)  One line per op; at EOF planner, problem definitions and paths are destroyed and
 // `end live=<n> allocs=<n> frees=<n> badfree=<n>` is printed.  ASan/LSan/UBSan are on: a report is a result.
@@ -18,8 +21,8 @@
 //   solve st=<STATUS> nsol=<n> added=<n> has=<b> exact=<b> approx=<b> top=<approx>:<diff>:<optimized>:<hasopt>:<cost>:<len>
 //         cmp=<na|same|better|worse> fired=<b> after=<n> evals=<n> firstsol=<n|-> firstexact=<n|-> plive=<n>
 //         new=[<idx>:<approx>:<n>:<s0>:<goal>:<valid>:<motions>:<old>:<ctl>;...] path=<n> <bits>*
-//   per new solution: n states, s0 = index of the current start state the first state equals (-1 none), goal = last
-//   state satisfies the current goal, valid = all states valid, motions = all consecutive motions valid (geometric),
+//   per new solution: n states, s0 = index of the current start state the first state equals (-1 none, -2 a start of an
+//   earlier query), goal = last state satisfies the current goal (2: not, but it is at a goal of an earlier query), valid = all states valid, motions = all consecutive motions valid (geometric),
 //   old = number of states equal to a start/goal state that exists only in an earlier query, ctl = control path shape ok.
 //   cmp compares the top solution before and after the call with the real PlannerSolution::operator<.
 // In trace mode (planner RRT) ` | ev=` lists what happened inside the planner call: A<serial> / F<serial>
@@ -28,6 +31,11 @@
 #include "common/planning.h"
 #include <ompl/base/DiscreteMotionValidator.h>
 #include <ompl/base/PlannerData.h>
+#include <ompl/base/terminationconditions/IterationTerminationCondition.h>
+#include <ompl/multilevel/planners/qrrt/QRRT.h>
+#include <ompl/multilevel/planners/qrrt/QRRTStar.h>
+#include <ompl/multilevel/planners/qmp/QMP.h>
+#include <ompl/multilevel/planners/qmp/QMPStar.h>
 #include <ompl/control/SpaceInformation.h>
 #include <ompl/control/PathControl.h>
 #include <ompl/control/spaces/RealVectorControlSpace.h>
@@ -279,6 +287,19 @@ static ob::PlannerPtr makePlanner(const std::string &n, const ob::SpaceInformati
         p->setPruningRadius(0.04);
         return p;
     }
+    if (n == "RRTi")
+        return std::make_shared<og::RRT>(si, true);  // addIntermediateStates
+    if (n == "RRTConnecti")
+        return std::make_shared<og::RRTConnect>(si, true);
+    if (n == "QRRT" || n == "QRRTStar" || n == "QMP" || n == "QMPStar")
+    {
+        // multilevel planners driven on a one-level sequence (the bundle-space machinery degenerates to one space)
+        std::vector<ob::SpaceInformationPtr> sis{si};
+        if (n == "QRRT") return std::make_shared<ompl::multilevel::QRRT>(sis);
+        if (n == "QRRTStar") return std::make_shared<ompl::multilevel::QRRTStar>(sis);
+        if (n == "QMP") return std::make_shared<ompl::multilevel::QMP>(sis);
+        return std::make_shared<ompl::multilevel::QMPStar>(sis);
+    }
     if (n == "BITstarA" || n == "ABITstarA")
     {
         // BIT* / ABIT* report approximate solutions only when asked to (closestVertexToGoal_ / closestDistanceToGoal_
@@ -349,6 +370,7 @@ struct Session
     ob::PlannerPtr planner;
     ob::ProblemDefinitionPtr pdef;
     std::vector<std::vector<double>> curStarts, curGoals, retired;
+    std::vector<std::vector<double>> retiredStarts, retiredGoals;  // the same, by role (for the narrow finding matches)
     bool setupDone = false;
     long extraGoalStates = 0;  // a GoalStates goal holds more than one state
     bool withObjective = false;  // header obj=len: every problem definition gets a PathLengthOptimizationObjective
@@ -409,9 +431,15 @@ struct Session
     void retireCurrent()
     {
         for (auto &s : curStarts)
+        {
             retired.push_back(s);
+            retiredStarts.push_back(s);
+        }
         for (auto &s : curGoals)
+        {
             retired.push_back(s);
+            retiredGoals.push_back(s);
+        }
         curStarts.clear();
         curGoals.clear();
     }
@@ -472,7 +500,9 @@ static std::vector<ob::State *> statesOf(const ob::PathPtr &p, bool &known)
     return {};
 }
 
-static void doSolve(Session &S, unsigned long k)
+// kind: 0 = evaluation-counting function; 1 = the decision is taken by a real ompl::base::IterationTerminationCondition(k);
+// 2 = the function never returns true, PlannerTerminationCondition::terminate() is called at evaluation k+1
+static void doSolve(Session &S, unsigned long k, int kind = 0)
 {
     if (!S.planner || !S.pdef)
     {
@@ -483,7 +513,9 @@ static void doSolve(Session &S, unsigned long k)
     es->fireAt = k;
     ob::ProblemDefinitionPtr pdef = S.pdef;
     std::shared_ptr<Tracker> tr = S.tracker;
-    ob::PlannerTerminationCondition ptc([es, pdef, tr]() {
+    auto itc = std::make_shared<ob::IterationTerminationCondition>((unsigned int)k);
+    auto holder = std::make_shared<std::shared_ptr<ob::PlannerTerminationCondition>>();
+    ob::PlannerTerminationCondition ptc([es, pdef, tr, kind, itc, holder]() {
         unsigned long n = ++es->evals;
         if (es->firstSol.load() < 0 && pdef->hasSolution())
         {
@@ -496,6 +528,21 @@ static void doSolve(Session &S, unsigned long k)
             es->firstExact.compare_exchange_strong(exp, (long)n);
         }
         bool r = n > es->fireAt;
+        if (kind == 1)
+            r = itc->eval();
+        else if (kind == 2)
+        {
+            if (r && *holder)
+            {
+                (*holder)->terminate();
+                if (es->firedAtMs.load() < 0)
+                {
+                    long long exp = -1;
+                    es->firedAtMs.compare_exchange_strong(exp, nowMs());
+                }
+            }
+            r = false;  // from now on terminate_ answers; this function is not called again
+        }
         es->lastEvalMs.store(nowMs());
         if (r && es->firedAtMs.load() < 0)
         {
@@ -509,6 +556,7 @@ static void doSolve(Session &S, unsigned long k)
         }
         return r;
     });
+    *holder = std::make_shared<ob::PlannerTerminationCondition>(ptc);  // shares the implementation object with ptc
     size_t before = S.pdef->getSolutionCount();
     ob::PlannerSolution oldTop(nullptr);
     bool hadTop = S.pdef->getSolution(oldTop);
@@ -569,6 +617,7 @@ static void doSolve(Session &S, unsigned long k)
                 c = '_';
     }
     S.leave();
+    holder->reset();
     std::string ev = S.evs();
     unsigned long evals = es->evals.load();
     bool fired = evals > k;
@@ -604,7 +653,7 @@ static void doSolve(Session &S, unsigned long k)
         if (s.path_)
             sts = statesOf(s.path_, known);
         int s0 = -1;
-        bool gl = false, val = true, mot = true;
+        bool gl = false, glOld = false, val = true, mot = true;
         long old = 0;
         std::string ctl = "-";
         if (!sts.empty())
@@ -613,7 +662,27 @@ static void doSolve(Session &S, unsigned long k)
             for (size_t i = 0; i < S.curStarts.size(); ++i)
                 if (S.curStarts[i] == r0)
                     s0 = (int)i;
+            if (s0 < 0)
+                for (auto &o : S.retiredStarts)
+                    if (o == r0)
+                        s0 = -2;  // the path begins at a start state of an EARLIER query
             gl = goal->isSatisfied(sts.back());
+            if (!gl)
+            {
+                // does the path end at a goal of an earlier query (within the current threshold)?
+                double thr = 0.0;
+                if (auto *gr = dynamic_cast<ob::GoalRegion *>(goal))
+                    thr = gr->getThreshold();
+                auto rl = S.reals(sts.back());
+                for (auto &o : S.retiredGoals)
+                {
+                    double d2 = 0;
+                    for (size_t j = 0; j < o.size() && j < rl.size(); ++j)
+                        d2 += (o[j] - rl[j]) * (o[j] - rl[j]);
+                    if (std::sqrt(d2) <= thr)
+                        glOld = true;
+                }
+            }
             for (auto *x : sts)
             {
                 if (!S.si->satisfiesBounds(x) || !S.si->isValid(x))
@@ -637,7 +706,7 @@ static void doSolve(Session &S, unsigned long k)
                 ctl = ok ? "1" : "0";
             }
         }
-        o << (firstNew ? "" : ";") << s.index_ << ":" << s.approximate_ << ":" << sts.size() << ":" << s0 << ":" << gl << ":"
+        o << (firstNew ? "" : ";") << s.index_ << ":" << s.approximate_ << ":" << sts.size() << ":" << s0 << ":" << (gl ? 1 : (glOld ? 2 : 0)) << ":"
           << val << ":" << mot << ":" << old << ":" << ctl;
         firstNew = false;
     }
@@ -903,8 +972,13 @@ int main()
                 S.curStarts.push_back(s);
                 std::cout << "addstart ok svalid=" << startValid(s) << std::endl;
             }
-            else if (op == "solve" && t.size() == 2 && vp::parseNat(t[1]))
-                doSolve(S, *vp::parseNat(t[1]));
+            else if ((op == "solve" || op == "solvei" || op == "solvet") && t.size() == 2 && vp::parseNat(t[1]))
+                doSolve(S, *vp::parseNat(t[1]), op == "solve" ? 0 : (op == "solvei" ? 1 : 2));
+            else if (op == "setparam" && t.size() == 3)
+            {
+                bool ok = S.planner->params().hasParam(t[1]) && S.planner->params().setParam(t[1], t[2]);
+                std::cout << "setparam ok=" << ok << std::endl;
+            }
             else if ((op == "clear" || op == "clearQuery") && t.size() == 1)
             {
                 S.enter();
